@@ -128,9 +128,34 @@ func registerCryptoIntrinsics(m *Machine) {
 		if !m.Branch(isEth) {
 			return TupleV{PtrV{}, m.freshError("not ethereum key")}
 		}
-		// an opaque *EthereumPublicKey carrying the identity
-		cell := &Cell{Epoch: m.epoch, V: OpaqueV{Kind: "ethpub", ID: id}}
-		return TupleV{PtrV{C: cell}, IfaceV{}}
+		// a real-typed *ec.EthereumPublicKey{&ecdsa.PublicKey{X: id}} carrying the identity in X
+		rt := c.Signature().Results().At(0).Type().(*types.Pointer).Elem()
+		outer := m.newCell(rt)
+		inner := m.newCell(outer.Kids[0].T.(*types.Pointer).Elem())
+		bx := m.newCell(m.bigIntType())
+		bx.V = BigV{tt.BV2Nat(id)}
+		inner.Kids[1].V = PtrV{C: bx}
+		outer.Kids[0].V = PtrV{C: inner}
+		return TupleV{PtrV{C: outer}, IfaceV{}}
+	}
+	I["github.com/ethereum/go-ethereum/crypto.PubkeyToAddress"] = func(m *Machine, fr *frame, a []Value, c *ssa.CallCommon) Value {
+		pk := a[0].(StructV)
+		xp, ok := pk[1].(PtrV)
+		if !ok || xp.IsNil() {
+			panic(m.unsupported("PubkeyToAddress on a concrete key"))
+		}
+		idn := m.bigOf(xp)
+		id := tt.Int2BV(64, idn)
+		var in []*Term
+		for i := 7; i >= 0; i-- {
+			in = append(in, tt.Extract(8*i+7, 8*i, id))
+		}
+		out := m.idealHash("ethaddr", 20, in)
+		av := make(ArrayV, 20)
+		for i, b := range out {
+			av[i] = b
+		}
+		return av
 	}
 	// go-ethereum keccak helpers (variadic [][]byte): ideal hash of the concatenation
 	keccak := func(m *Machine, a []Value) []*Term {
